@@ -249,14 +249,14 @@ Theorem da_relocation_preserves_keys : forall d addr st ns d' nb,
   relocate_state d st ns = (d', Some nb) ->
   exists addr', DInv d' addr' /\ used d' st /\ addr' st = addr st /\ bv d' st = nb /\
      is_free_word (cget d' (nb + ns)) = true /\ nb + ns < blen d' /\
-     (forall k, View d' addr' k <-> View d addr k).
+     (forall k, View d' addr' k <-> View d addr k) /\ blen d <= blen d'.
 Proof. exact relocate_spec. Qed.
 Check da_relocation_preserves_keys : forall d addr st ns d' nb,
   DInv d addr -> used d st -> bv d st <> NIL_STATE -> ns < 256 -> cget d (bv d st + ns) <> st ->
   relocate_state d st ns = (d', Some nb) ->
   exists addr', DInv d' addr' /\ used d' st /\ addr' st = addr st /\ bv d' st = nb /\
      is_free_word (cget d' (nb + ns)) = true /\ nb + ns < blen d' /\
-     (forall k, View d' addr' k <-> View d addr k).
+     (forall k, View d' addr' k <-> View d addr k) /\ blen d <= blen d'.
 Print Assumptions da_relocation_preserves_keys.
 
 (* the language of a well-formed double array is the set of ghost addresses of its used terminal slots *)
@@ -376,3 +376,19 @@ Theorem cs_refines_set_noop_remove : forall ops, Forall op_ok ops -> cs_run c_em
 Proof. exact cs_refines_set_noop_remove_proof. Qed.
 Check cs_refines_set_noop_remove : forall ops, Forall op_ok ops -> cs_run c_empty ops = s_run_nr [] ops.
 Print Assumptions cs_refines_set_noop_remove.
+
+(* ------------------------------------------------------------------ when can an insert into the double array report an error?
+   Only when relocate_state has probed 10001 bases of stride 257 without success, and then the arrays are longer than
+   HUGE = 2 570 000 slots (the error leaves them that long).  So the hypothesis d_noerr of da_refines_set can only
+   fail for a history one of whose prefixes has already grown an array beyond 2 570 000 slots. *)
+Theorem da_insert_err_only_when_huge : forall d addr key d', bytes_ok key -> DInv d addr -> da_insert d key = (d', None) -> HUGE < blen d'.
+Proof. exact da_insert_err. Qed.
+Check da_insert_err_only_when_huge : forall d addr key d', bytes_ok key -> DInv d addr -> da_insert d key = (d', None) -> HUGE < blen d'.
+Print Assumptions da_insert_err_only_when_huge.
+
+Theorem da_noerr_or_huge : forall ops, Forall da_op_ok ops ->
+  d_noerr d_empty ops = true \/ exists n, HUGE < blen (d_da (d_exec d_empty (firstn n ops))).
+Proof. exact da_noerr_or_huge_proof. Qed.
+Check da_noerr_or_huge : forall ops, Forall da_op_ok ops ->
+  d_noerr d_empty ops = true \/ exists n, HUGE < blen (d_da (d_exec d_empty (firstn n ops))).
+Print Assumptions da_noerr_or_huge.
